@@ -281,7 +281,15 @@ def run(rep, progs, tier):
                 if allowed is not None:
                     from ..callgraph import short
                     root = prog.bodies.get(s.body.root, s.body)
-                    callers = sorted({short(norm(prog.bodies.get(prog.bodies[c].root, prog.bodies[c]).name)) for c in cg.callers.get(root.id, ())
+                    # a private function with a single call site counts as its caller
+                    owner = panics.single_caller_owner(prog, cg)
+
+                    def top(n, depth=4):
+                        while n in owner and depth > 0 and short(n) not in allowed:
+                            n = owner[n]
+                            depth -= 1
+                        return n
+                    callers = sorted({short(top(norm(prog.bodies.get(prog.bodies[c].root, prog.bodies[c]).name))) for c in cg.callers.get(root.id, ())
                                       if not prog.bodies[c].raw.get("derived")})
                     extra = [c for c in callers if c not in allowed]
                     rep.check(not extra, "C12.inventory", inst + " callers", s.where,
